@@ -18,8 +18,8 @@ PROP = dict(
         assumptions=['sequential use (device bring-up is single-threaded)',
                      'sinks accept every Write completely, as the ring buffer and the TTYs do',
                      'consoles without FontSetter/LogoSetter (font/logo selection is outside the property)'],
-        level_text='Lean theorems (ring_is_last_N, probe_order, failed_never_active, first_wins, linked_both_orders, log_exactly_once, '
-                   'prefix_lines, ...) hold for every driver set, registration order, failing subset and every amount/chunking of log '
+        level_text='Lean theorems (ring_is_last_N, ring_writes_then_drain, prefix_lines, probe_order, failed_never_active, first_wins, '
+                   'linked_both_orders, log_exactly_once, link_moment; generic in the compiled power-of-two ringBufferSize) hold for every driver set, registration order, failing subset and every amount/chunking of log '
                    'output; the model is tied to the Go code by regenerated constants (ringBufferSize, DetectOrder values) and a '
                    'differential run of the real hal/kfmt code against the model with the property oracle on the real observations.',
         level_note='Trusted: Lean kernel (+ propext, Classical.choice, Quot.sound), the theorem statements, the harness and mock drivers '
